@@ -1888,12 +1888,20 @@ impl OverlayFs {
             trace!("whiteouts deleted!\n");
         }
 
-        let mut need_whiteout = true;
-        let pnode = self.copy_node_up(ctx, Arc::clone(&pnode))?;
-
-        if node.upper_layer_only() {
-            need_whiteout = false;
+        // A whiteout is needed whenever a lower layer of the parent still has an entry
+        // under this name. The node itself cannot tell: a non-directory or an opaque
+        // directory in the upper layer shadows lower entries without recording them.
+        let mut need_whiteout = false;
+        for ri in pnode.real_inodes.lock().unwrap().iter() {
+            if !ri.in_upper_layer && ri.lookup_child(ctx, sname.as_str())?.is_some() {
+                need_whiteout = true;
+                break;
+            }
+            if ri.opaque {
+                break;
+            }
         }
+        let pnode = self.copy_node_up(ctx, Arc::clone(&pnode))?;
 
         let mut path_removed = None;
         if node.in_upper_layer() {
